@@ -467,6 +467,7 @@ func checkC09(c *Ctx, r *Report) {
 	bitmapLengthAgreement(c, r, "C09.R3.bitmap-length", "Truncate's size walk is short for such records and the truncated reply exceeds the requested size")
 	r.rule("C09.R4.stop-only-on-overflow", 1, "truncateLoop leaves its loop early only where the record just measured does not fit")
 	stopOnlyOnOverflow(c, r, "C09.R4.stop-only-on-overflow")
+	aplExtentShared(c, r, "C09.R3.apl-extent", "for every prefix whose masked address ends in zero octets (10.1.0.0/24, any IPv6 network) Len() counts 1..15 octets too many; Truncate, which budgets with it, drops records from a reply that fits and sets TC")
 }
 
 // edgeDominatesAny: one of the If's edges edge-dominates target.
